@@ -2,7 +2,7 @@
 C12 driver: one case line (after the leading `C12` token)
 
   <method> p=<hex> q=<hex>|q=- h=<name:hex,...>|h=- b=<hex> ds=<status>:<bodyhex>:<hdrhex> f=<Rpc,...>|f=-
-  pc=<hex> rc=<hex> pins=<hex,...>|pins=- np=<n> gc=<hex,...>|gc=- or=<arg>:<pp|!>:<cd|!>;...|or=- ing=<n> xp=<hex>
+  pc=<hex> rc=<hex> pins=<hex,...>|pins=- np=<n> gc=<hex,...>|gc=- or=<arg>:<pp|!>:<cd|!>;...|or=- ing=<n> xp=<hex> dx=<cmd>|dx=-
   => st=<n> se=<0|1> rb=<hex> dh=<hex> it=<hex,...>|it=- d=<req;...>|d=- r=<rpc;...>|r=-
 
   req = METHOD|<pathhex>|<queryhex or ->|<name:hex,... or ->|<bodyhex>
@@ -82,10 +82,10 @@ def parseDs (s : String) : Option (Nat × Bytes × Bytes) :=
   | [st, b, h] => do pure (← st.toNat?, ← hex b, ← hex h)
   | _ => none
 
-def parseCase (ws : List String) : Option (Input × Output) := do
+def parseCase (ws : List String) : Option (Input × Output × String) := do
   let (pre, post) ← splitArrow ws
   match pre, post with
-  | [m, p, q, h, b, ds, f, pc, rc, pins, np, gc, orc, ing, xp], [st, se, rb, dh, it, d, r] =>
+  | [m, p, q, h, b, ds, f, pc, rc, pins, np, gc, orc, ing, xp, dx], [st, se, rb, dh, it, d, r] =>
     let (dst, dbody, dhdr) ← parseDs (← field "ds=" ds)
     let env : Env :=
       { dStatus := dst, dBody := dbody, dHdr := dhdr, fails := parseFails (← field "f=" f),
@@ -101,7 +101,7 @@ def parseCase (ws : List String) : Option (Input × Output) := do
         body := ← hex (← field "rb=" rb), dhdr := ← hex (← field "dh=" dh),
         items := ← hexCsv (← field "it=" it), dreqs := ← semis parseDReq (← field "d=" d),
         rpcs := ← semis parseRpc (← field "r=" r) }
-    pure (i, o)
+    pure (i, o, ← field "dx=" dx)
   | _, _ => none
 
 /-- helper requests modulo the CORS pre-flight (whose URL is rebuilt from the decoded path) and headers -/
@@ -115,7 +115,7 @@ def optionsOK (l : List DReq) : Bool :=
 def answer (ws : List String) : String :=
   match parseCase ws with
   | none => "bad-case parse"
-  | some (i, o) =>
+  | some (i, o, dx) =>
     let tgt := route i.method i.path
     let missing := (oracleArgs i).filter (fun a => !(i.env.oracle.any (fun e => e.1 == a)))
     if !missing.isEmpty then "bad-case oracle-missing" else
@@ -130,7 +130,10 @@ def answer (ws : List String) : String :=
       | none => []
     let obs : AddObs := { root := root, items := o.items }
     let m := run i obs
-    let a := arm i obs
+    -- informational: a relayed request that a go-ipfs-cmds daemon would execute as one of the hijacked commands
+    let a := arm i obs ++ (match tgt with
+      | .relay => if dx != "-" then "-daemon-runs-" ++ dx else ""
+      | _ => "")
     let failed := (clauses i o).filter (fun c => !c.2)
     if !failed.isEmpty then
       "propfail " ++ ",".intercalate (failed.map (·.1)) ++ " arm=" ++ a
